@@ -144,7 +144,7 @@ def step (p : Probes) (h : Host) (op : Op) : Host × String :=
     match deliverPurge l (fun ls => ls.mergeSort (fun a b => a ≤ b)) h.cache h.listeners now (fun _ => []) (fun _ => []) with
     | .error e => (h, s!"X err={e.name}")
     | .ok d =>
-      let bs := browsersUpdate h d.cache now d.pairs
+      let bs := browsersUpdate h d.cache (Gen.Cache.purge_updates_now now) d.pairs
       let (bs', cbs) := browsersComplete bs
       ({ h with cache := d.cache, browsers := bs', listeners := d.listeners },
         s!"X u={pairsStr d.pairs} c1={idsStr d.round1} c2={idsStr d.round2} n={if d.notify then 1 else 0} cb={cbStr cbs} {readersStr p d.cache}")
